@@ -1548,6 +1548,8 @@ class ContactHandler(Messenger, dbus.service.Object):
             if self._in_term:
                 # no new transfers after SESS_TERM is sent
                 self._tx_cancel_pending()
+                # that may have been the last thing keeping the session open
+                self._check_sess_term()
                 return False
             if not self._tx_pend_start:
                 # nothing to do
